@@ -18,10 +18,12 @@ from . import fitter_units as FT
 from . import scan_units as SU
 
 LEVEL = "other"
-EXPLANATION = ("Deductive: the mask construction of fit() for absolute and contact-point-relative ranges and the "
-               "use/xmin/xmax clauses of _fit are discharged for all arrays, segments, intervals (inverted, "
-               "zero-width, coinciding with samples) and k > 0. Bounded: plateau search (scan grid monotone with "
-               "the requested number of samples, optimum inside the scanned depths) on a recorded curve.")
+EXPLANATION = ("Deductive: the fitter is built by the real __init__; the mask construction of fit() for absolute, "
+               "contact-point-relative and plateau-search ranges, the plateau scan compute_emodulus_vs_mindelta (loop "
+               "verified for one arbitrary iteration) and the use/xmin/xmax clauses of _fit are discharged for all "
+               "arrays, segments, intervals (inverted, zero-width, coinciding with samples) and k > 0. Assumed: the "
+               "plateau detection returns a depth between the scan's extremes. Bounded: plateau search on a recorded "
+               "curve (optimum inside the scanned depths, grid, sample count).")
 
 
 def unit_bounded_plateau(tier=None, seed=0):
@@ -31,7 +33,8 @@ def unit_bounded_plateau(tier=None, seed=0):
     t0 = time.time()
     warnings.simplefilter("ignore")
     problems, ne, samples = [], 0, []
-    for nsamp in ((7, 20) if tier == "quick" else (5, 7, 20, 40)):
+    # (scipy.signal.filtfilt needs more than 6 samples: smaller scans are outside the domain of the plateau search)
+    for nsamp in ((7, 20) if tier == "quick" else (7, 8, 20, 40)):
         cur = FT._synthetic()
         cur.apply_preprocessing(["compute_tip_position", "correct_force_offset", "correct_tip_offset"])
         try:
@@ -111,6 +114,10 @@ def unit_canaries(tier=None, seed=None):
 def units(tier):
     us = FT.units_for("C05") + SU.units_for("C05") + [Unit("bounded.ranges", unit_bounded_ranges),
                                 Unit("bounded.plateau_search", unit_bounded_plateau)]
+    # the scan arrays a curve shows are those of the requested number of samples only if changing that setting
+    # drops the cached arrays (contract shared with C03)
+    from . import c03
+    us.append(Unit("FitProperties.__setitem__", c03.unit_setitem, prop="C05"))
     if tier == "thorough" and not os.environ.get("VF_NO_CANARIES") and str(REPO) == "/repo":
         us.append(Unit("selftest.canaries", unit_canaries))
     return us
